@@ -235,8 +235,8 @@ class ReadRangeCached(Base):
     def requires(self, ctx, a):
         cs, keep, L = fields(a.self)
         s, e = to_z3(a.start), to_z3(a.stop)
-        return common_requires(a.self) + [("0 <= start <= stop <= length",
-                                           z3.And(0 <= s, s <= e, e <= L))]
+        # any stop: a request that reaches beyond the end of the resource is answered with what there is
+        return common_requires(a.self) + [("0 <= start", 0 <= s)]
 
     def loop_havoc(self, ctx, v):
         v.self.fields["cache"] = fresh_cache(ctx)
@@ -247,7 +247,8 @@ class ReadRangeCached(Base):
         from pyvc.models import divmod_sym
         cs, keep, L = fields(v.self)
         out = []
-        for nm, p, c in (("pos", to_z3(v.pos), v.lo + v.it), ("stop", to_z3(v.stop), v.hi - 1)):
+        for nm, p, c in (("pos", to_z3(v.pos), v.lo + v.it), ("stop", to_z3(v.stop), v.hi - 1),
+                         ("stop (in the chunk visited)", to_z3(v.stop), v.lo + v.it)):
             q, r = divmod_sym(ctx, p, cs)
             q, r = to_z3(q), to_z3(r)
             out.append((f"unique quotient of {nm} by the chunk size",
@@ -258,7 +259,8 @@ class ReadRangeCached(Base):
 
     def inv(self, ctx, v):
         cs, keep, L = fields(v.self)
-        start, stop = to_z3(v.old.start), to_z3(v.old.stop)
+        start = to_z3(v.old.start)
+        stop = z3.If(to_z3(v.old.stop) <= L, to_z3(v.old.stop), L)       # the effective end of the request
         data, pos, toread = v.data, to_z3(v.pos), to_z3(v.toread)
         dlen = data.hi - data.lo
         c = v.lo + v.it                         # chunk visited next (v.lo == start // cs)
@@ -271,8 +273,8 @@ class ReadRangeCached(Base):
                        z3.And(v.it > 0, pos == c * cs))),
                 ("the first chunk visited contains start",
                  z3.And(v.lo * cs <= start, start < (v.lo + 1) * cs, v.lo >= 0)),
-                ("the last chunk visited contains stop",
-                 z3.And((v.hi - 1) * cs <= stop, stop < v.hi * cs)),
+                ("the last chunk visited contains the last byte requested",
+                 z3.And((v.hi - 1) * cs <= stop - 1, stop - 1 < v.hi * cs, stop > start)),
                 ("start/stop are not reassigned",
                  z3.And(to_z3(v.start) == start, to_z3(v.stop) == stop)),
                 ("CacheInv", cache_inv(v.self, "i")),
@@ -291,16 +293,20 @@ class ReadRangeCached(Base):
         return SBytes(lo, hi, "content")
 
     def ensures(self, ctx, old, a, result):
+        cs, keep, L = fields(a.self)
         s, e = to_z3(old.start), to_z3(old.stop)
-        return [("returns exactly content[start:stop]", is_slice(result, s, e)),
+        e = z3.If(e <= L, e, L)
+        return [("returns exactly content[start:min(stop, length)] (nothing when that is empty)",
+                 z3.If(e > s, is_slice(result, s, e), result.hi - result.lo == 0)),
                 ("CacheInv preserved", cache_inv(a.self, "e")),
                 ("no more than keep_chunks chunks are held", cache_bound(a.self))]
 
 
 # ---------------------------------------------------------------- read / seek / tell
 class Read(Base):
-    """read(size) for 0 <= size and pos + size <= length (the quantifier of the
-    property: positions and lengths within the resource)."""
+    """read(size) at any position >= 0: the bytes from the position up to min(pos + size, length) -- everything up
+    to the end for size < 0 / None, nothing for size == 0 or at the end --, and the position advances by the number
+    of bytes returned."""
     name = "HTTPFile.read"
     qualname = "HTTPFile.read"
     params = ("self", "size")
@@ -315,13 +321,16 @@ class Read(Base):
     def requires(self, ctx, a):
         cs, keep, L = fields(a.self)
         pos, size = to_z3(a.self.fields["_pos"]), to_z3(a.size)
-        return common_requires(a.self) + [
-            ("size > 0", size > 0), ("0 <= pos", pos >= 0), ("pos + size <= length", pos + size <= L)]
+        return common_requires(a.self) + [("0 <= pos", pos >= 0)]
 
     def ensures(self, ctx, old, a, result):
+        cs, keep, L = fields(a.self)
         pos0, size = to_z3(old.self.fields["_pos"]), to_z3(old.size)
-        return [("returns content[pos:pos+size]", is_slice(result, pos0, pos0 + size)),
-                ("position advances by size", to_z3(a.self.fields["_pos"]) == pos0 + size),
+        end = z3.If(size < 0, L, z3.If(pos0 + size <= L, pos0 + size, L))
+        n = z3.If(end > pos0, end - pos0, 0)
+        return [("returns content[pos:min(pos+size, length)] (up to the end for a negative size)",
+                 z3.If(end > pos0, is_slice(result, pos0, end), result.hi - result.lo == 0)),
+                ("the position advances by the number of bytes returned", to_z3(a.self.fields["_pos"]) == pos0 + n),
                 ("CacheInv preserved", cache_inv(a.self, "e")),
                 ("no more than keep_chunks chunks are held", cache_bound(a.self))]
 
@@ -368,8 +377,53 @@ class Tell(Base):
                 ("position unchanged", to_z3(a.self.fields["_pos"]) == to_z3(old.self.fields["_pos"]))]
 
 
-UNITS = [DownloadRange(), GetCacheChunk(), ReadRangeCached(), Read(), Seek(), Tell()]
-TRUSTED = [SessionGet()]
+class GetSession(Contract):
+    """session_cache.get_session(url): a requests session for the host (the network is outside the code)"""
+    name = "ResoluteRequestsSessionCache.get_session"
+    trusted = True
+
+    def __call__(self, interp, url):
+        return interp.ctx.obj("Session", {"_L": interp.ctx.int("length")}, name="session")
+
+
+class Init(Base):
+    """HTTPFile(url, chunk_size, keep_chunks): establishes the cache invariant -- the new object starts at
+    position 0 with an empty chunk cache that belongs to it alone (chunks are keyed by index only, so a
+    cache shared between objects would serve the bytes of another resource or of another chunk size)"""
+    name = "HTTPFile.__init__"
+    qualname = "HTTPFile.__init__"
+    params = ("self", "url", "chunk_size", "keep_chunks")
+
+    def __init__(self):
+        super().__init__()
+        self.callees = {"ResoluteRequestsSessionCache.get_session": GetSession()}
+
+    def inputs(self, ctx):
+        return {"self": ctx.obj("HTTPFile", {}, name="self"), "url": "http://x/y",
+                "chunk_size": ctx.int("chunk_size", lo=1, inp=True), "keep_chunks": ctx.int("keep_chunks", lo=1, inp=True)}
+
+    def ensures(self, ctx, old, a, result):
+        import sys
+        f = a.self.fields
+        cache = f.get("cache")
+        empty = isinstance(cache, dict) and len(cache) == 0
+        # no module-level object of the library refers to the cache
+        shared = []
+        for mname, mod in list(sys.modules.items()):
+            if mname.startswith("dclab") and mod is not None:
+                for gname, g in list(vars(mod).items()):
+                    if g is cache or (isinstance(g, dict) and any(v is cache for v in g.values())) \
+                            or (isinstance(g, (list, tuple, set)) and any(v is cache for v in g)):
+                        shared.append(f"{mname}.{gname}")
+        return [("the new object has an empty chunk cache of its own"
+                 + (f" [also referred to by {shared[:2]}]" if shared else ""), z3.BoolVal(empty and not shared)),
+                ("position 0, length unknown yet, the given chunk size and bound",
+                 z3.And(to_z3(f.get("_pos")) == 0, z3.BoolVal(f.get("_len") is None),
+                        to_z3(f.get("_chunk_size")) == a.chunk_size.e, to_z3(f.get("_keep_chunks")) == a.keep_chunks.e))]
+
+
+UNITS = [DownloadRange(), GetCacheChunk(), ReadRangeCached(), Read(), Seek(), Tell(), Init()]
+TRUSTED = [SessionGet(), GetSession()]
 
 
 # ---------------------------------------------------------------- replay on the real code
@@ -436,7 +490,24 @@ def _cache_ok(f, content):
     return None
 
 
+def _replay_init():
+    """two file objects on the same URL (constructed by the real __init__) do not share chunks"""
+    import dclab.http_utils as hu
+    a = hu.HTTPFile("http://replay.invalid/resource", chunk_size=8, keep_chunks=2)
+    b = hu.HTTPFile("http://replay.invalid/resource", chunk_size=32, keep_chunks=2)
+    a.cache[0] = b"12345678"
+    if a.cache is b.cache or 0 in b.cache:
+        return {"failed": True, "detail": "two HTTPFile objects on the same URL (chunk sizes 8 and 32) share one chunk cache: "
+                                          "the second serves the 8-byte chunk 0 of the first as its 32-byte chunk 0"}
+    c = hu.HTTPFile("http://replay.invalid/resource")
+    if c.cache or c._pos != 0 or c._len is not None:
+        return {"failed": True, "detail": f"a new HTTPFile starts with cache {list(c.cache)}, position {c._pos}, length {c._len}"}
+    return {"failed": False, "detail": "every new object has an empty cache of its own"}
+
+
 def replay(unit_name, inp, obligation=""):
+    if unit_name == "HTTPFile.__init__":
+        return _replay_init()
     f, content, log = _mk_real(inp)
     op = unit_name.split(".")[-1]
     try:
